@@ -642,6 +642,21 @@ def inst_cfgs():
                 return REJECT
             cfg(name, lambda T=T, an=allow_none: T(A, allow_none=an), dom,
                 model, "A0", kind=nm)
+    # clones of a trait type with allow_none changed
+    cfg("Instance(A)(allow_none=False)",
+        lambda: Instance(A)(allow_none=False),
+        lambda s: isinstance(s, A),
+        lambda v: ("same", v) if isinstance(v, A) else REJECT, "A0",
+        kind="Instance-clone")
+    cfg("Instance(A,allow_none=False)(allow_none=True)",
+        lambda: Instance(A, allow_none=False)(allow_none=True),
+        lambda s: s is None or isinstance(s, A),
+        lambda v: ("same", v) if (v is None or isinstance(v, A)) else REJECT,
+        "A0", kind="Instance-clone")
+    cfg("Supports(IFoo)(allow_none=False)",
+        lambda: Supports(IFoo)(allow_none=False),
+        lambda s: isinstance(s, (FooImpl, CToFoo)), None, "FOO0",
+        kind="Supports-clone")
     # class given by (qualified) name: resolved lazily, on first use
     cfg("Instance('props.lattice.A')",
         lambda: Instance("props.lattice.A", allow_none=False),
